@@ -22,6 +22,7 @@
 -/
 import IocProofs.Lemmas.ConcPaths
 import IocProofs.Lemmas.ConcMap
+import IocProofs.Lemmas.ConcLen
 import IocProofs.Lemmas.SemSync2
 
 namespace Ioc.C20
@@ -267,6 +268,57 @@ theorem C20_range_not_atomic :
   rintro ⟨m, he⟩
   rw [replay_of_explains m12 h m he] at hnone
   cases hnone
+
+/-! ### `Length()` of ConcurrentSets / GenericConcurrentSets (util/list/concurrent_set.go:69-71, generic_concurrent_set.go:69-71)
+
+Recorded set histories contain `Length` calls (harness token `N`), and every set history ends with a QUIESCENT `Length`
+(after all goroutines have returned); the `setlen` scenarios release several goroutines that Remove the same present key
+(and Put / Remove other keys) and read Length(), len(ToArray()) and Exists afterwards.  The specification: Length is the
+number of keys present.  (A seeded change kept an atomic size counter and decremented it in Remove after a separate
+Load: two concurrent Removes of one present key both decrement, and every later Length is one too small — no sequential
+order of the calls explains that, `C20_length_drift_not_linearizable`.) -/
+
+/-- sequential specification of `Length`: the number of keys (of the universe) present; the set is left as it is -/
+theorem C20_length_counts_present (ks : List Nat) (m : MapSt) :
+    (HOp.length ks).spec m = (m, .got (some (presentKeys m ks).length) false) := by
+  simp only [HOp.spec, snapshot_length]
+
+/-- the checker for histories with `Length` calls decides, on a history without them, exactly what `linearizableB` decides -/
+theorem C20_hist_conservative (m0 : MapSt) (h : List Rec) :
+    linearizableHB m0 (h.map Rec.lift) = linearizableB m0 h :=
+  linearizableHB_lift m0 h
+
+/-- Put / Remove calls in which no key is both put and removed: the set they leave is determined by WHICH keys are
+    removed and put — removed keys are absent, put keys present, every other key as before. -/
+theorem C20_setlen_final (l : List Op) (m0 : MapSt)
+    (hset : ∀ op, op ∈ l → op.setOnly = true) (hdisj : ∀ k, k ∈ removedKeys l → k ∉ putKeys l) (k : Nat) :
+    (l.foldl (fun m op => (op.spec m).1) m0) k =
+      if k ∈ removedKeys l then none else if k ∈ putKeys l then some 0 else m0 k :=
+  setFold_final l m0 hset hdisj k
+
+/-- … hence every order of the same calls — the linearization order of ANY schedule of the goroutines of a `setlen`
+    scenario, or the thread-by-thread order `seqFinal` uses — leaves the same set, and so the same quiescent Length. -/
+theorem C20_setlen_order_irrelevant (queues : List (List Op)) (l : List Op) (m0 : MapSt) (hp : queues.flatten.Perm l)
+    (hset : ∀ op, op ∈ queues.flatten → op.setOnly = true)
+    (hdisj : ∀ k, k ∈ removedKeys queues.flatten → k ∉ putKeys queues.flatten) :
+    l.foldl (fun m op => (op.spec m).1) m0 = seqFinal m0 queues :=
+  (setFold_perm queues.flatten l m0 hp hset hdisj).symm
+
+def m123 : MapSt := upd (upd (upd emptyMap 1 (some 0)) 2 (some 0)) 3 (some 0)
+
+/-- the drift: set {1,2,3}, two overlapping Remove(1), then a quiescent Length() = 1 — no sequential order explains it;
+    Length() = 2 is what every order gives. -/
+theorem C20_length_drift_not_linearizable :
+    linearizableHB m123 [⟨.op (.remove 1), .unit, 0, 3⟩, ⟨.op (.remove 1), .unit, 1, 2⟩, ⟨.length [1, 2, 3], .got (some 1) false, 4, 5⟩] = false ∧
+    linearizableHB m123 [⟨.op (.remove 1), .unit, 0, 3⟩, ⟨.op (.remove 1), .unit, 1, 2⟩, ⟨.length [1, 2, 3], .got (some 2) false, 4, 5⟩] = true := by
+  decide
+
+-- non-vacuity of C20_setlen_order_irrelevant: eight goroutines removing key 1, one putting key 4
+example : (∀ op, op ∈ ((List.replicate 8 [Op.remove 1] ++ [[Op.put 4, Op.remove 2]]).flatten) → op.setOnly = true) ∧
+    (∀ k, k ∈ removedKeys ((List.replicate 8 [Op.remove 1] ++ [[Op.put 4, Op.remove 2]]).flatten) →
+          k ∉ putKeys ((List.replicate 8 [Op.remove 1] ++ [[Op.put 4, Op.remove 2]]).flatten)) ∧
+    quiescentObs m123 (List.replicate 8 [Op.remove 1] ++ [[Op.put 4, Op.remove 2]]) [1, 2, 3, 4, 5, 6, 7, 8] = (2, 2, [3, 4]) := by
+  decide
 
 /-! ### non-vacuity -/
 
